@@ -43,6 +43,7 @@ def main():
     jobs = chk.jobs(a.tier)
     if a.only:
         jobs = [j for j in jobs if a.only in j['name']]
+        runner.PARTIAL = True            # a filtered run must not overwrite the evidence of the full check
     outs = runner.run_jobs(jobs, seed=seed, nproc=a.procs)
     return runner.finish(a.prop, a.tier, seed, jobs, outs, t0, chk.rule, chk.nontrivial,
                          extra=chk.extra(a.tier, outs), assumptions=list(chk.assumptions))
